@@ -132,3 +132,15 @@ Fixpoint prune (f : faults) (root : path) (t : tree) : tree :=
 Definition stated_errno (e : errno) : bool :=
   match e with ENOENT | ENOTDIR | EACCES => true | _ => false end.
 Definition stated (f : faults) : bool := forallb (fun x => stated_errno (snd x)) f.
+
+(* Relational reading of "reachable": [reaches rec root t p st] - the entry with path [p] and stat
+   [st] lies below the directory [t] (whose path is [root]): a direct child, or, when recursive,
+   reachable below a child. *)
+Inductive reaches (rec : bool) : path -> tree -> path -> stat -> Prop :=
+| R_child : forall root st ch n sub,
+    st_isdir st = true -> In (n, sub) ch ->
+    reaches rec root (Node st ch) (join root n) (stat_of sub)
+| R_below : forall root st ch n sub p s,
+    rec = true -> st_isdir st = true -> In (n, sub) ch ->
+    reaches rec (join root n) sub p s ->
+    reaches rec root (Node st ch) p s.
